@@ -308,6 +308,8 @@ def apply_op(iso, op):
         kw = {pre + '_old_path': op['old'], pre + '_new_path': path}
         if op.get('rr') is not None:
             kw['rr_name'] = op['rr']
+        if op.get('xkw'):
+            kw.update(op['xkw'])        # further keywords as a caller might pass them (they must not change what is refused)
         iso.add_hard_link(**kw)
     elif kind == 'symlink':
         iso.add_symlink(symlink_path=path, rr_symlink_name=op.get('rr'), rr_path='target')
@@ -973,7 +975,12 @@ def t_link_dup(draw):
         name = draw(candidate(new, ns, 'file'))[0]
     # the link's Rock Ridge name: fresh, or the one a sibling already has (with a fresh ISO9660 identifier)
     lrr = draw(st.sampled_from(['lnk', 'lnk', 'dst', 'src']))
-    ops.append({'op': 'link', 'ns': ns, 'old': '/SRC', 'path': '/' + name, 'rr': lrr if isrr else None})
+    lop = {'op': 'link', 'ns': ns, 'old': '/SRC', 'path': '/' + name, 'rr': lrr if isrr else None}
+    xk = draw(st.sampled_from([None, None, None, {'data_continuation': True}, {'data_continuation': False}]))
+    if xk and target == 'exists':
+        # the keyword the library uses internally for the later records of a multi-extent file: a duplicate stays a duplicate
+        lop['xkw'] = xk
+    ops.append(lop)
     return {'h': 'link-dup', 'new': new, 'ops': ops}
 
 
